@@ -94,4 +94,89 @@ inductive Typed (G : Env) : Expr F → Ty → Prop
 def ExtOk (ext : Ext F) : Prop :=
   ∀ args r, ext.call "math.mod" args = some r → ∃ v, r = [XArg.num v]
 
+/-! ### statements -/
+
+/-- a static scope: the declared names of one block in declaration order, with their types -/
+abbrev SEnv := List (Str × Ty)
+
+def senvGet (s : SEnv) (n : Str) : Option Ty := List.lookup n s
+
+/-- mirror of `scopeSet` -/
+def senvSet : SEnv → Str → Ty → SEnv
+  | [], n, t => [(n, t)]
+  | (k, w) :: rest, n, t => if k = n then (n, t) :: rest else (k, w) :: senvSet rest n t
+
+/-- static lookup, mirror of `getVar`: block scopes of the current function innermost first, then the
+globals (`Gg`: the declared type of every global of the program) -/
+def lookupG (Gs : List SEnv) (Gg : Env) : Env := fun n =>
+  if n = underscore then none
+  else match Gs.findSome? (fun s => senvGet s n) with
+    | some t => some t
+    | none => Gg n
+
+mutual
+/-- statement typing: `STyped Gg ρ Gs s Gs'` — under the block scopes `Gs` (innermost first) and the
+globals `Gg`, in a function with result type `ρ`, statement `s` is well-typed and leaves the scopes
+`Gs'` (a declaration extends the innermost scope) -/
+inductive STyped (Gg : Env) (ρ : Option Ty) : List SEnv → Stmt F → List SEnv → Prop
+  | noop (Gs : List SEnv) : STyped Gg ρ Gs .noop Gs
+  | brk (Gs : List SEnv) : STyped Gg ρ Gs .brk Gs
+  | declLocal (h : SEnv) (rest : List SEnv) (n : Str) (e : Expr F) (t : Ty) : n ≠ underscore →
+      Typed (lookupG (h :: rest) Gg) e t → STyped Gg ρ (h :: rest) (.decl n e) (senvSet h n t :: rest)
+  | declGlobal (n : Str) (e : Expr F) (t : Ty) : n ≠ underscore → Gg n = some t →
+      Typed (lookupG [] Gg) e t → STyped Gg ρ [] (.decl n e) []
+  | assignVar (Gs : List SEnv) (n : Str) (e : Expr F) (t : Ty) : lookupG Gs Gg n = some t →
+      Typed (lookupG Gs Gg) e t → STyped Gg ρ Gs (.assign (.var n) e) Gs
+  | assignIdxArr (Gs : List SEnv) (l i e : Expr F) (s : Ty) : Typed (lookupG Gs Gg) l (.arr s) →
+      Typed (lookupG Gs Gg) i .num → Typed (lookupG Gs Gg) e s → STyped Gg ρ Gs (.assign (.index l i) e) Gs
+  | assignIdxMap (Gs : List SEnv) (l i e : Expr F) (s : Ty) : Typed (lookupG Gs Gg) l (.map s) →
+      Typed (lookupG Gs Gg) i .str → Typed (lookupG Gs Gg) e s → STyped Gg ρ Gs (.assign (.index l i) e) Gs
+  | assignDot (Gs : List SEnv) (l : Expr F) (key : Str) (e : Expr F) (s : Ty) : Typed (lookupG Gs Gg) l (.map s) →
+      Typed (lookupG Gs Gg) e s → STyped Gg ρ Gs (.assign (.dot l key) e) Gs
+  | retNone (Gs : List SEnv) : ρ = none → STyped Gg ρ Gs (.ret none) Gs
+  | retSome (Gs : List SEnv) (e : Expr F) (t : Ty) : ρ = some t → Typed (lookupG Gs Gg) e t → STyped Gg ρ Gs (.ret (some e)) Gs
+  | ifS (Gs : List SEnv) (conds : List (Expr F × List (Stmt F))) (els : Option (List (Stmt F))) :
+      (∀ c ∈ conds, Typed (lookupG Gs Gg) c.1 .bool) → (∀ c ∈ conds, BTyped Gg ρ ([] :: Gs) c.2) →
+      (∀ b, els = some b → BTyped Gg ρ ([] :: Gs) b) → STyped Gg ρ Gs (.ifS conds els) Gs
+  | whileS (Gs : List SEnv) (c : Expr F) (body : List (Stmt F)) : Typed (lookupG Gs Gg) c .bool →
+      BTyped Gg ρ ([] :: Gs) body → STyped Gg ρ Gs (.whileS c body) Gs
+  /-- `print` takes any number of arguments of any type -/
+  | print (Gs : List SEnv) (args : List (Expr F)) : (∀ a ∈ args, ∃ t, Typed (lookupG Gs Gg) a t) →
+      STyped Gg ρ Gs (.callS (.call (lit "print") args)) Gs
+/-- a statement list: each statement under the scopes its predecessors left -/
+inductive BTyped (Gg : Env) (ρ : Option Ty) : List SEnv → List (Stmt F) → Prop
+  | nil (Gs : List SEnv) : BTyped Gg ρ Gs []
+  | cons (Gs Gs' : List SEnv) (s : Stmt F) (rest : List (Stmt F)) : STyped Gg ρ Gs s Gs' → BTyped Gg ρ Gs' rest →
+      BTyped Gg ρ Gs (s :: rest)
+end
+
+/-- two lists related element by element -/
+inductive All2 {α β : Type} (R : α → β → Prop) : List α → List β → Prop
+  | nil : All2 R [] []
+  | cons {a : α} {b : β} {as : List α} {bs : List β} : R a b → All2 R as bs → All2 R (a :: as) (b :: bs)
+
+/-- a run-time scope agrees with its static scope: same names in the same order, values of the
+declared types -/
+def ScOk (S : Store) (g : SEnv) (sc : Scope F) : Prop :=
+  All2 (fun (p : Str × Val F) (q : Str × Ty) => p.1 = q.1 ∧ VT S p.2 q.2) sc g
+
+def LocalsOk (S : Store) (Gs : List SEnv) (locals : List (Scope F)) : Prop :=
+  All2 (fun sc g => ScOk S g sc) locals Gs
+
+/-- every global that exists has its declared type (globals come into existence as the top-level
+code runs) -/
+def GlobalOk (S : Store) (Gg : Env) (global : Scope F) : Prop :=
+  ∀ p ∈ global, ∀ t, Gg p.1 = some t → VT S p.2 t
+
+structure StOk (S : Store) (Gs : List SEnv) (Gg : Env) (st : St F) : Prop where
+  locals : LocalsOk S Gs st.locals
+  global : GlobalOk S Gg st.global
+  heap : HeapOk S st.heap
+
+/-- how a statement may complete in a function with result type `ρ` -/
+def ComplOk (S : Store) (ρ : Option Ty) : Completion F → Prop
+  | .ret (some v) => ∃ t, ρ = some t ∧ VT S v t
+  | .ret none => ρ = none
+  | _ => True
+
 end EvyV.TS
